@@ -60,6 +60,9 @@ type c07Case struct {
 	// PriorOpen (with Prior): the first connection is NOT closed; the judged act is DialWithContext again,
 	// Send, Close on the same Client (the setters of SetupAfterPrior run in between).
 	PriorOpen bool `json:"prior_open,omitempty"`
+	// Quick: the judged call is the package-level mail.QuickSend("host:port", auth data, ...), which builds its own
+	// Client (opportunistic TLS, auto-discovered authentication); Policy is "opportunistic", Auth "AUTODISCOVER" or "".
+	Quick bool `json:"quick,omitempty"`
 }
 
 func c07Policy(p string) mail.TLSPolicy {
@@ -313,6 +316,15 @@ func c07Run(c c07Case) []*core.Violation {
 				done <- fmt.Errorf("PANIC: %v", p)
 			}
 		}()
+		if c.Quick {
+			var ad *mail.AuthData
+			if c.Auth != "" {
+				ad = mail.NewAuthData(c.User, c.Pass)
+			}
+			_, qerr := mail.QuickSend(fmt.Sprintf("%s:%d", c.Host, port), ad, "sender@verif.example", []string{"rcpt@verif.example"}, "c07 quicksend", []byte("body\r\n"))
+			done <- qerr
+			return
+		}
 		if c.PriorOpen {
 			// the application dials again without having closed the first connection
 			err := cl.DialWithContext(context.Background())
@@ -516,6 +528,16 @@ func c07LifecycleCases() []c07Case {
 			}
 		}
 	}
+	// the package-level QuickSend (its own Client: opportunistic TLS, auto-discovery)
+	for _, host := range []string{"127.0.0.1", "127.0.0.2"} {
+		for _, auth := range []string{"AUTODISCOVER", ""} {
+			for _, b := range []beh{{true, "ok", "ok"}, {false, "ok", "ok"}, {true, "4yz", "ok"}, {true, "5yz", "ok"}, {true, "garbage", "ok"}, {true, "ok", "wrongname"}, {true, "ok", "untrusted"}, {true, "ok", "garbage"}} {
+				for _, al := range c07AuthLists[:4] {
+					out = append(out, c07Case{Policy: "opportunistic", Quick: true, Auth: auth, Host: host, StartTLS: b.adv, TLSReply: b.reply, Handshake: b.hs, AuthList: al})
+				}
+			}
+		}
+	}
 	// the application dials again WITHOUT having closed the first connection, after tightening the policy
 	for _, host := range []string{"127.0.0.1", "127.0.0.2"} {
 		for _, auth := range []string{"", "PLAIN", "CRAM-MD5"} {
@@ -603,7 +625,7 @@ func c07LifecycleCases() []c07Case {
 
 func c07Describe() {
 	rec := core.Rec("C07")
-	rec.Rule = "real TCP sessions (default dialers, the client's DEFAULT tls.Config with the harness CA installed as the only system root through SSL_CERT_FILE) of DialAndSend against the reference server on 127.0.0.1 (a localhost name by go-mail's rule) and 127.0.0.2 (not): product of TLS policy {mandatory, default (no option), opportunistic, none, implicit} x 13 auth types x host x server behaviour {STARTTLS advertised or not; STARTTLS answered 220 / 454 / 502 / garbage; handshake ok / certificate for another name / certificate of an untrusted CA / garbage bytes; plain-text speaker on the implicit-TLS port; implicit TLS configured with a fallback port (WithSSLPort) where the primary port refuses and a plain-text server listens on the fallback port 25} x advertised AUTH lists (3 in quick, 8 in thorough, incl. only-cleartext mechanisms, empty, absent, and a list that carries the library's own type names PLAIN-NOENC / LOGIN-NOENC / AUTODISCOVER / CUSTOM / NOAUTH as mechanism tokens). Default-port cases (no port option: a port policy leaves a fallback port 25 behind, a later policy setter makes TLS mandatory, the primary port 587 is closed and a plain-text server answers on 25). Policy changes between two connections of one Client (implicit TLS switched on, a weak policy made mandatory), and a *tls.Config without ServerName that was first given to a Client for another host. Lifecycle cases: the policy established by a sequence of setter calls (SetTLSPolicy, SetTLSPortPolicy, SetSSL, SetSSLPort after other policies were set first, with or without a weaker policy option) instead of an option, and the judged DialAndSend being the SECOND connection of one Client whose first connection (DialWithContext + Close) met a well-behaved server at the same address offering STARTTLS with a valid certificate and AUTH PLAIN LOGIN. Fresh random 16-character credentials per case. Both tiers enumerate their product completely (quick with 3 AUTH lists, thorough with 8). TestC07Names adds, over in-memory connections, 18 host names around go-mail's localhost rule (exact names, names that merely start/end with or contain 'localhost', 127.x look-alikes) x {none, opportunistic without STARTTLS} x {PLAIN, LOGIN, AUTODISCOVER} x 3 AUTH lists. " +
+	rec.Rule = "real TCP sessions (default dialers, the client's DEFAULT tls.Config with the harness CA installed as the only system root through SSL_CERT_FILE) of DialAndSend against the reference server on 127.0.0.1 (a localhost name by go-mail's rule) and 127.0.0.2 (not): product of TLS policy {mandatory, default (no option), opportunistic, none, implicit} x 13 auth types x host x server behaviour {STARTTLS advertised or not; STARTTLS answered 220 / 454 / 502 / garbage; handshake ok / certificate for another name / certificate of an untrusted CA / garbage bytes; plain-text speaker on the implicit-TLS port; implicit TLS configured with a fallback port (WithSSLPort) where the primary port refuses and a plain-text server listens on the fallback port 25} x advertised AUTH lists (3 in quick, 8 in thorough, incl. only-cleartext mechanisms, empty, absent, and a list that carries the library's own type names PLAIN-NOENC / LOGIN-NOENC / AUTODISCOVER / CUSTOM / NOAUTH as mechanism tokens). Default-port cases (no port option: a port policy leaves a fallback port 25 behind, a later policy setter makes TLS mandatory, the primary port 587 is closed and a plain-text server answers on 25). Policy changes between two connections of one Client (implicit TLS switched on, a weak policy made mandatory), and a *tls.Config without ServerName that was first given to a Client for another host. The package-level QuickSend (own Client: opportunistic TLS, auto-discovered authentication) x host x server behaviour x 4 AUTH lists. Lifecycle cases: the policy established by a sequence of setter calls (SetTLSPolicy, SetTLSPortPolicy, SetSSL, SetSSLPort after other policies were set first, with or without a weaker policy option) instead of an option, and the judged DialAndSend being the SECOND connection of one Client whose first connection (DialWithContext + Close) met a well-behaved server at the same address offering STARTTLS with a valid certificate and AUTH PLAIN LOGIN. Fresh random 16-character credentials per case. Both tiers enumerate their product completely (quick with 3 AUTH lists, thorough with 8). TestC07Names adds, over in-memory connections, 18 host names around go-mail's localhost rule (exact names, names that merely start/end with or contain 'localhost', 127.x look-alikes) x {none, opportunistic without STARTTLS} x {PLAIN, LOGIN, AUTODISCOVER} x 3 AUTH lists. " +
 		"Oracle on the byte tap: under mandatory policy the cleartext consists of EHLO/HELO, STARTTLS and QUIT lines only, no session continues after a handshake with an invalid certificate, nothing but QUIT (or TLS records) follows a failed handshake; implicit TLS: first byte is a TLS record and no SMTP verb in clear; under every policy the PLAIN/LOGIN password never appears in the cleartext raw, hex or base64 (3 alignments) unless the type is *-NOENC or the host is localhost; AUTODISCOVER never issues AUTH PLAIN/LOGIN/XOAUTH2 on an unencrypted connection. " +
 		"Non-trivial: the server deviates from the happy path or the policy is not 'none'. Distinct by the case tuple."
 	rec.Assumptions = []string{"Go's root loader honours SSL_CERT_FILE/SSL_CERT_DIR (Linux)", "127.0.0.2 is bindable on the loopback interface"}
